@@ -77,6 +77,14 @@ class Impl:
         pm = self.pk.ProblemKind.__dict__["has_" + name]
         return [f for f in pm.keywords["features"] if f in self.id]
 
+    def tested_has(self, cls):
+        """names x of the ProblemKind.has_x() tests made by cls.resulting_problem_kind (read from its compiled code object)"""
+        fn = getattr(cls, "resulting_problem_kind", None)
+        code = getattr(fn, "__code__", None)
+        if code is None:
+            return []
+        return [n[4:] for n in code.co_names if n.startswith("has_") and n in self.pk.ProblemKind.__dict__]
+
     def kind(self, spec):
         return self.pk.ProblemKind(set(self.names[i] for i in spec[0]), spec[1])
 
@@ -228,6 +236,7 @@ def classify(I, ex):
 def second_reading(I, ctx, factory, rng):
     """Execute every registered built-in engine class; returns (Gallina ecase list, raw)"""
     cases, raw = [], []
+    stats_branch = {}
     hot = [I.id[k] for k in I.pkv.FEATURES_VERSIONS if k in I.id]
     for n in I.builtin:
         if n not in factory.engines:
@@ -253,6 +262,7 @@ def second_reading(I, ctx, factory, rng):
         if "COMPILER" in modes:
             base = I.spec_of(sk)[0]
             n_s = 25 if ctx.quick else 120
+            specs = []
             for j in range(n_s):
                 feats = set(rng.sample(base, min(len(base), rng.randint(0, 8))))
                 for _ in range(rng.randint(0, 3)):
@@ -260,7 +270,20 @@ def second_reading(I, ctx, factory, rng):
                 if j == 0:
                     feats = set(base)
                 ver = rng.choice([I.latest, I.latest, I.latest, None, 2, 1])
-                spec = (sorted(feats), ver)
+                specs.append((sorted(feats), ver))
+            # every branch of the declared-kind program both ways: all subsets of the features its has_x() tests look at,
+            # alone, inside the rest of the supported kind, and without a declared version
+            tested = sorted(set(I.id[f] for h in I.tested_has(cls) for f in I.has_features(h)))
+            if len(tested) > 9:
+                tested = sorted(rng.sample(tested, 9))
+            rest = [i for i in base if i not in tested]
+            for r in range(len(tested) + 1):
+                for sub in itertools.combinations(tested, r):
+                    specs.append((sorted(sub), I.latest))
+                    specs.append((sorted(set(sub) | set(rest)), I.latest))
+                    specs.append((sorted(sub), None))
+            stats_branch[n] = {"has_tests": I.tested_has(cls), "features_tested": len(tested)}
+            for spec in specs:
                 try:
                     k = I.kind(spec)
                 except AssertionError:
@@ -278,7 +301,8 @@ def second_reading(I, ctx, factory, rng):
                              ["c32", "resulting_problem_kind", cls.__name__, type(ex).__name__],
                              {"engine": n, "kind": spec, "exception": repr(ex), "theorem_or_corr": "corr:C32:engine_agree"}, True)
         e = {"name": n, "modes": modes, "supported": I.spec_of(sk), "comp": members("supports_compilation", I.CK),
-             "plans": members("supports_plan", I.PK), "opt": members("satisfies", I.OG), "any": members("ensures", I.AG), "res": res}
+             "plans": members("supports_plan", I.PK), "opt": members("satisfies", I.OG), "any": members("ensures", I.AG), "res": res,
+             "branches": stats_branch.get(n)}
         raw.append(e)
         cases.append("{| ec_name := %s; ec_modes := %s; ec_supported := %s; ec_comp := %s; ec_plans := %s; ec_opt := %s; ec_any := %s; ec_res := %s |}" % (
             gstr(n), glist(modes), g_skind(e["supported"]), g_set(e["comp"]), g_set(e["plans"]), g_set(e["opt"]), g_set(e["any"]),
@@ -397,7 +421,7 @@ def rand_prog(I, rng, depth=0):
     return out
 
 
-def build_world(I, ctx, rng, n_sel, n_pipe, stats):
+def build_world(I, ctx, rng, n_sel, n_pipe, stats, n_hist=2):
     env = I.up.environment.Environment()
     factory = env.factory
     registered = [n for n in I.builtin if n in factory.engines]
@@ -542,6 +566,93 @@ def build_world(I, ctx, rng, n_sel, n_pipe, stats):
             q["obs"] = ("fail", classify(I, ex))
             q["exc"] = repr(ex)[:300]
         pipe.append(q)
+    # ---- histories of requests on THIS factory object: same kind and preference list, one requirement varied at a time; every
+    # request is also put to a FRESH Factory holding the same engines (a selection must not depend on earlier requests)
+    def fresh_factory(prefs):
+        f2 = I.up.environment.Environment().factory
+        for cname, _ in dummies:
+            f2.add_engine(cname, "c32_dummies", cname)
+        f2.preference_list = list(prefs)
+        return f2
+
+    def ask(fac, q, use_api):
+        k = I.kind(q["kind"])
+        mode = q["mode"]
+        og = None if q["og"] is None else I.OG[q["og"]]
+        ag = None if q["ag"] is None else I.AG[q["ag"]]
+        pk = None if q["pk"] is None else I.PK[q["pk"]]
+        ck = None if q["ck"] is None else I.CK[q["ck"]]
+        api = None
+        if use_api and q["name"] is None:
+            api = {"ONESHOT_PLANNER": lambda: fac.OneshotPlanner(problem_kind=k, optimality_guarantee=og),
+                   "ANYTIME_PLANNER": lambda: fac.AnytimePlanner(problem_kind=k, anytime_guarantee=ag),
+                   "PLAN_VALIDATOR": lambda: fac.PlanValidator(problem_kind=k, plan_kind=pk),
+                   "COMPILER": lambda: fac.Compiler(problem_kind=k, compilation_kind=ck),
+                   "PORTFOLIO_SELECTOR": lambda: fac.PortfolioSelector(problem_kind=k, optimality_guarantee=og),
+                   "PLAN_REPAIRER": lambda: fac.PlanRepairer(problem_kind=k, plan_kind=pk, optimality_guarantee=og)}.get(mode)
+        rv = {c: n for n, c in classes.items()}
+        try:
+            c = type(api()) if api is not None else fac._get_engine_class(I.mode[mode], q["name"], k, og, ck, pk, ag)
+            return ("found", rv.get(c, "?" + c.__name__)), api is not None
+        except Exception as ex:
+            return classify(I, ex), api is not None
+
+    def ask_pipe(fac, q):
+        try:
+            p = fac.Compiler(problem_kind=I.kind(q["kind"]), compilation_kinds=[I.CK[i] for i in q["cks"]], names=q["names"])
+            return ("found", [rev.get(type(c), "?" + type(c).__name__) for c in p._compilers])
+        except Exception as ex:
+            return ("fail", classify(I, ex))
+
+    hist_modes = ["ANYTIME_PLANNER", "ONESHOT_PLANNER", "PLAN_VALIDATOR", "COMPILER", "PLAN_REPAIRER", "PORTFOLIO_SELECTOR", "REPLANNER"]
+    enum_len = {"og": len(I.OG), "ck": len(I.CK), "pk": len(I.PK), "ag": len(I.AG)}
+    for hno in range(n_hist):
+        mode = hist_modes[(hno + rng.randrange(len(hist_modes))) % len(hist_modes)] if rng.random() < 0.7 else rng.choice(hist_modes)
+        cands = [n for n in allnames if getattr(classes[n], "is_" + I.mode[mode].value)()]
+        target = rng.choice(cands) if cands else rng.choice(allnames)
+        kind = rand_kind(target)
+        if kind[1] is not None and kind[1] > I.latest:
+            kind = (kind[0], I.latest)
+        prefs = [n for n in rng.sample(allnames, len(allnames))][: rng.randint(max(2, len(allnames) // 2), len(allnames))]
+        if target not in prefs:
+            prefs.append(target)
+        factory.preference_list = list(prefs)
+        cur = {"og": None, "ck": None, "pk": None, "ag": None}
+        for step in range(rng.randint(5, 9)):
+            if step > 0:
+                r = rng.choice(PERTINENT[mode]) if PERTINENT[mode] else None
+                if r is not None:
+                    choices = [None] + list(range(enum_len[r]))
+                    if r == "ck":
+                        choices = [None] + offered["ck"][:] + [rng.randrange(enum_len[r])]
+                    cur[r] = rng.choice([c for c in choices if c != cur[r]])
+            q = {"prefs": list(prefs), "name": None, "mode": mode, "kind": kind, "history": hno, "step": step}
+            q.update(cur)
+            if rng.random() < 0.08:
+                q["name"] = rng.choice(allnames)
+            use_api = rng.random() < 0.7
+            q["obs"], was_api = ask(factory, q, use_api)
+            q["fresh"], _ = ask(fresh_factory(prefs), q, use_api)
+            q["via"] = "history-api" if was_api else "history-_get_engine_class"
+            if was_api:
+                stats["through_public_api"] += 1
+            sel.append(q)
+        # a short history of pipeline requests on the same factory
+        comp = [n for n in allnames if classes[n].is_compiler()]
+        ptarget = rng.choice(comp)
+        pkind = rand_kind(ptarget)
+        if pkind[1] is not None and pkind[1] > I.latest:
+            pkind = (pkind[0], I.latest)
+        for step in range(3):
+            cks = [rng.choice(offered["ck"]) for _ in range(rng.randint(1, 2))]
+            if step == 0:
+                cks[0] = rng.choice([i for i in range(len(I.CK)) if classes[ptarget].supports_compilation(I.CK[i])])
+            q = {"prefs": list(prefs), "names": None, "cks": cks, "kind": pkind, "history": hno, "step": step}
+            if step == 2 and rng.random() < 0.5:
+                q["names"] = [rng.choice([None] + comp) for _ in cks]
+            q["obs"] = ask_pipe(factory, q)
+            q["fresh"] = ask_pipe(fresh_factory(prefs), q)
+            pipe.append(q)
     return {"registered": registered, "dummies": dummies, "sel": sel, "pipe": pipe, "classes": classes}
 
 
@@ -568,14 +679,14 @@ def run(ctx):
                  {"engine": eraw[i], "model_parts": parts, "names": I.names, "theorem_or_corr": "corr:C32:engine_agree"}, False)
 
     # ---- worlds
-    n_worlds = 10 if ctx.quick else 60
+    n_worlds = 10 if ctx.quick else 120
     n_sel, n_pipe = (45, 18) if ctx.quick else (60, 25)
-    stats = {"worlds": n_worlds, "selection_requests": 0, "pipeline_requests": 0, "through_public_api": 0, "by_mode": {}, "outcomes": {},
+    stats = {"worlds": n_worlds, "history_requests": 0, "selection_requests": 0, "pipeline_requests": 0, "through_public_api": 0, "by_mode": {}, "outcomes": {},
              "pipeline_outcomes": {}, "pipeline_lengths": {}, "with_requirement": 0, "by_name": 0, "kind_versions": {},
              "dummy_engines": 0, "builtin_registered": 0}
     worlds = []
     for _ in range(n_worlds):
-        worlds.append(build_world(I, ctx, rng, n_sel, n_pipe, stats))
+        worlds.append(build_world(I, ctx, rng, n_sel, n_pipe, stats, n_hist=3 if ctx.quick else 5))
     gcases = [g_world(I, w) for w in worlds]
     bad = ctx.coq_failing(gcases, "ok", imports=IMPORTS, shard=max(1, (len(gcases) + 1) // 2))
 
@@ -585,6 +696,7 @@ def run(ctx):
         stats["builtin_registered"] = len(w["registered"])
         for q in w["sel"]:
             stats["selection_requests"] += 1
+            stats["history_requests"] += "history" in q
             stats["by_mode"][q["mode"]] = stats["by_mode"].get(q["mode"], 0) + 1
             o = "found" if isinstance(q["obs"], tuple) else q["obs"]
             stats["outcomes"][o] = stats["outcomes"].get(o, 0) + 1
@@ -608,6 +720,17 @@ def run(ctx):
 
     n_or = 0
     for wi, w in enumerate(worlds):
+        for q in w["sel"] + w["pipe"]:
+            if "fresh" in q and q["fresh"] != q["obs"]:
+                n_or += 1
+                stats["history_dependent_answers"] = stats.get("history_dependent_answers", 0) + 1
+                if n_or <= 6:
+                    ctx.fail("oracle", "history on one Factory (request %d of history %d, %s): the factory answered %s, a fresh Factory with the same engines "
+                             "answers %s" % (q["step"], q["history"], q.get("mode", "pipeline"), q["obs"], q["fresh"]),
+                             ["c32", "history", q.get("mode", "pipeline")] + [r for r in ("og", "ck", "pk", "ag") if q.get(r) is not None],
+                             {"request": q, "earlier_requests_of_the_history": [x for x in (w["sel"] if "mode" in q else w["pipe"])
+                                                                                if x.get("history") == q["history"] and x["step"] < q["step"]],
+                              "dummies": w["dummies"], "names": I.names, "theorem_or_corr": "oracle:C32:history-independence"}, True)
         for qi, q in enumerate(w["sel"]):
             why = oracle_sel(I, q, w["classes"])
             if why:
